@@ -222,4 +222,114 @@ theorem after_close_only_exit (s s' : W) (l : Lbl) (hi : Inv s) (hr : s.closer =
   have := hi.e2 (Or.inr hr)
   cases l <;> simp only [step] at hs <;> simp_all
 
+
+/-- Second group of invariants: generations. -/
+structure Inv2 (s : W) : Prop where
+  g1 : ∀ i, (s.callers i).pc = .won → (s.callers i).gen ∉ s.closed
+  g2 : ∀ g, g < s.cur → g ∈ s.closed
+  g3 : ∀ i, (s.callers i).pc ≠ .start → (s.callers i).gen ≤ s.ptr
+  g4 : ∀ g, g ∈ s.closed → g ∈ s.fired
+  g5 : s.ppc = .woken → s.cur ∈ s.closed
+  u : ∀ i j, (s.callers i).pc = .won → (s.callers j).pc = .won → (s.callers i).gen = (s.callers j).gen → i = j
+
+theorem inv2_init (m : Bool) : Inv2 (W.init m) := by
+  constructor <;> simp [W.init, Caller.fresh]
+
+theorem inv2_step (s s' : W) (l : Lbl) (h : Inv s) (h2 : Inv2 s) (hs : step s l = some s') : Inv2 s' := by
+  obtain ⟨a1, a2, b, c, d, e1, e2, f⟩ := h
+  obtain ⟨g1, g2, g3, g4, g5, u⟩ := h2
+  cases l with
+  | pollStart =>
+    simp only [step] at hs
+    split at hs <;> simp at hs
+    subst hs
+    constructor <;> grind [serveAll]
+  | pollEnd cb =>
+    simp only [step] at hs
+    split at hs <;> simp at hs
+    subst hs
+    constructor <;> grind
+  | timer =>
+    simp only [step] at hs
+    split at hs <;> simp at hs
+    subst hs
+    constructor <;> grind
+  | wake =>
+    simp only [step] at hs
+    split at hs <;> simp at hs
+    subst hs
+    constructor <;> grind
+  | takeDone =>
+    simp only [step] at hs
+    split at hs <;> simp at hs
+    subst hs
+    constructor <;> grind
+  | mkChan =>
+    simp only [step] at hs
+    split at hs <;> simp at hs
+    subst hs
+    constructor <;> grind
+  | storePtr =>
+    simp only [step] at hs
+    split at hs <;> simp at hs
+    subst hs
+    constructor <;> grind
+  | closeDone =>
+    simp only [step] at hs
+    split at hs <;> simp at hs
+    subst hs
+    constructor <;> grind
+  | closeCall =>
+    simp only [step] at hs
+    split at hs <;> simp at hs
+    subst hs
+    constructor <;> grind
+  | closeRet =>
+    simp only [step] at hs
+    split at hs <;> simp at hs
+    subst hs
+    constructor <;> grind
+  | load i =>
+    simp only [step] at hs
+    split at hs <;> simp at hs
+    subst hs
+    constructor <;> grind [setCaller]
+  | fire i =>
+    simp only [step] at hs
+    split at hs <;> try simp at hs
+    split at hs <;> simp at hs <;> subst hs
+    · constructor <;> grind [setCaller]
+    · constructor <;> grind [setCaller]
+  | closeCh i =>
+    simp only [step] at hs
+    split at hs <;> simp at hs
+    subst hs
+    constructor <;> grind [setCaller]
+
+theorem inv2_reachable (m : Bool) (s : W) (h : GB.LTS.Reachable step (W.init m) s) : Inv s ∧ Inv2 s :=
+  GB.LTS.invariant step (W.init m) (fun s => Inv s ∧ Inv2 s) ⟨inv_init m, inv2_init m⟩
+    (fun s l s' hi hs => ⟨inv_step s s' l hi.1 hs, inv2_step s s' l hi.1 hi.2 hs⟩) s h
+
+/-- The closure of the once-func reads the FIELD `r.resolveNow` when it runs; whenever a winner is
+    about to run it, that field still holds the generation the once belongs to — so modelling
+    `close(r.resolveNow)` as closing the caller's own generation is faithful (and the read cannot
+    race with the poller's write in `newResolveNow`, which needs that very close to happen first). -/
+theorem inv_winner_current (s : W) (h : Inv s) (h2 : Inv2 s) (i : Nat) (hw : (s.callers i).pc = .won) :
+    (s.callers i).gen = s.cur ∧ s.ppc ≠ .woken ∧ s.ppc ≠ .madeChan := by
+  obtain ⟨a1, a2, b, c, d, e1, e2, f⟩ := h
+  obtain ⟨g1, g2, g3, g4, g5, u⟩ := h2
+  have h1 := g1 i hw
+  have h3 := g3 i (by simp [hw])
+  have hg := g2 (s.callers i).gen
+  by_cases hm : s.ppc = .madeChan
+  · have := a1 hm
+    have : (s.callers i).gen < s.cur := by omega
+    exact absurd (hg this) h1
+  · have hc := a2 hm
+    have hlt : ¬ (s.callers i).gen < s.cur := fun hl => h1 (hg hl)
+    have heq : (s.callers i).gen = s.cur := by omega
+    refine ⟨heq, ?_, hm⟩
+    intro hwk
+    exact h1 (heq ▸ g5 hwk)
+
 end GB.C15
